@@ -1391,6 +1391,96 @@ def split_parallel_assign(program, log):
         rewrite(f.node.body, f)
 
 
+def stat_probe(program, log):
+    """`try: m = os.stat(P).st_mode` / `except (OSError, ValueError): SKIP`
+    (SKIP ends in continue / return / raise) with m used only as
+    `stat.S_ISDIR(m)` reads `if not os.path.exists(P): SKIP` and
+    `os.path.isdir(P)`: exists() answers False for exactly the errors of
+    os.stat it swallows - OSError and ValueError - and isdir() is S_ISDIR of
+    the same stat.  A narrower handler (FileNotFoundError) is left alone."""
+    import copy as _copy
+
+    def rewrite(body, f):
+        i = 0
+        while i < len(body):
+            st = body[i]
+            for fld in ('body', 'orelse', 'finalbody'):
+                sub_ = getattr(st, fld, None)
+                if isinstance(sub_, list) and sub_ and isinstance(
+                        sub_[0], ast.stmt):
+                    rewrite(sub_, f)
+            for h in getattr(st, 'handlers', []) or []:
+                rewrite(h.body, f)
+            if not (isinstance(st, ast.Try) and len(st.body) == 1
+                    and len(st.handlers) == 1 and not st.orelse
+                    and not st.finalbody
+                    and isinstance(st.body[0], ast.Assign)
+                    and len(st.body[0].targets) == 1
+                    and isinstance(st.body[0].targets[0], ast.Name)):
+                i += 1
+                continue
+            a = st.body[0]
+            v = a.value
+            if not (isinstance(v, ast.Attribute) and v.attr == 'st_mode'
+                    and isinstance(v.value, ast.Call)
+                    and dotted(v.value.func) == 'os.stat'
+                    and len(v.value.args) == 1 and not v.value.keywords
+                    and (dotted(v.value.args[0])
+                         or isinstance(v.value.args[0], ast.Name))):
+                i += 1
+                continue
+            h = st.handlers[0]
+            tys = h.type.elts if isinstance(h.type, ast.Tuple) else (
+                [h.type] if h.type is not None else [])
+            if {dotted(t) for t in tys} != {'OSError', 'ValueError'} \
+                    or h.name or not isinstance(
+                        h.body[-1], (ast.Continue, ast.Return, ast.Raise)):
+                i += 1
+                continue
+            m, P = a.targets[0].id, v.value.args[0]
+            uses = [n for n in ast.walk(f.node) if isinstance(n, ast.Name)
+                    and n.id == m and n is not a.targets[0]]
+            calls = [n for n in ast.walk(f.node) if isinstance(n, ast.Call)
+                     and dotted(n.func) == 'stat.S_ISDIR' and len(n.args) == 1
+                     and isinstance(n.args[0], ast.Name)
+                     and n.args[0].id == m]
+            stores = [n for n in ast.walk(f.node) if isinstance(n, ast.Name)
+                      and n.id in {x.id for x in ast.walk(P)
+                                   if isinstance(x, ast.Name)}
+                      and isinstance(n.ctx, ast.Store)]
+            if len(uses) != len(calls) or not calls or len(stores) > 1:
+                i += 1
+                continue
+            alias = 'os.path'
+            for k, val in f.module.imports.items():
+                if val == ('module', 'os.path'):
+                    alias = k
+
+            def path_fn(name):
+                n = ast.parse(f'{alias}.{name}', mode='eval').body
+                return n
+            new_if = ast.If(
+                test=ast.UnaryOp(ast.Not(), ast.Call(
+                    path_fn('exists'), [_copy.deepcopy(P)], [])),
+                body=h.body, orelse=[])
+            ast.copy_location(new_if, st)
+            for n_ in ast.walk(new_if):
+                if not hasattr(n_, 'lineno'):
+                    ast.copy_location(n_, st)
+            ast.fix_missing_locations(new_if)
+            body[i] = new_if
+            for c in calls:
+                c.func = ast.copy_location(path_fn('isdir'), c)
+                c.args = [_copy.deepcopy(P)]
+                ast.fix_missing_locations(c)
+            log.append(f'{f.where}: os.stat probe with an (OSError, '
+                       'ValueError) handler read as exists() / isdir()')
+            i += 1
+
+    for f in program.all_functions():
+        rewrite(f.node.body, f)
+
+
 def rotate_idiom(program, log):
     """`q.append(q.popleft())` on a deque known to be non-empty (an earlier
     statement of the same block returns when it is empty / has at most one
@@ -1933,7 +2023,7 @@ def run(program):
     program.cow = set()
     for step in (explicit_properties, walrus_out, inline_simple_decorators,
                  sentinel_lookups, setdefault_fresh, mirror_locals,
-                 rotate_idiom, drain_loops, split_parallel_assign,
+                 rotate_idiom, drain_loops, stat_probe, split_parallel_assign,
                  inline_aliases, context_managers_to_try, rpartition_keys,
                  slices_of_islice,
                  pop_last_idiom,
